@@ -5,6 +5,7 @@ pub mod c10;
 pub mod c11;
 pub mod c12;
 pub mod c14;
+pub mod c18;
 pub mod swapmon;
 pub mod twohop;
 
